@@ -344,5 +344,6 @@ def main(chk):
     for i in (0, len(progs) // 2, len(progs) - 1):
         chk.sample({"program": progs[i], "expected": meta[i][2], "impl": res[i]["impl"].get("repr"), "model_verdict": res[i]["verdict"]})
     chk.cov["rule"] += " Name pool includes names with several leading underscores and a trailing underscore."
+    chk.cov["rule"] += " (12 names in the pool.) Added after seeded round 6: float keys that print alike, keys whose user-defined `==` raises for other kinds of values."
     return pancore.conclude(chk, ok, broken, "Props/C09.v", res, viol, model_only, "C09",
                             "Core.Interp (EObj/EMap, Obj#keys.., Map#..) vs evaluator/eval_{obj,map,pair}.go, object/{obj,map}.go, props/{obj,map}_props.go")
